@@ -220,4 +220,10 @@ def pshadowTrace (last : String) : List String :=
   "stale-binary-used c17/w/t/a.c dep=include-of-inherited-shadowed-by:c17/w/t/s.h:c17/w/t/b.c"
 #guard judge (pshadowCase ["file /c17/w/t/s.h 00", "mtime /c17/w/t/s.h 80"]) (pshadowTrace "lb c17/w/t/a.c stale") == []
 
+/-! a binary copied to another program's place is foreign there; copied back to its own place it is the genuine one -/
+#guard has (judge (mkCase ["copybin c17/w/t/b.c c17/w/t/a.c"]) (["restarted 50"] ++ block1 ++ ["copybin c17/w/t/b.c c17/w/t/a.c"] ++
+  block2 dumpA2 "R f:%61 \"f-0\"")) "foreign-binary-used c17/w/t/a.c"
+#guard !has (judge (mkCase ["copybin c17/w/t/b.c c17/w/t/a.c", "copybin c17/w/t/a.c c17/w/t/b.c"]) (["restarted 50"] ++ block1 ++
+  ["copybin c17/w/t/b.c c17/w/t/a.c", "copybin c17/w/t/a.c c17/w/t/b.c"] ++ block2 dumpA2 "R f:%61 \"f-0\"")) "foreign-binary-used c17/w/t/b.c"
+
 end NV.C17.SpecTests
